@@ -67,6 +67,25 @@ def native_check(kind, n, env=None, seed=0):
             got = o.apply(st, keep[idx].clone())
             if tuple(got.shape) != (len(idx),) or not torch.allclose(got, base[idx], rtol=1e-10, atol=1e-12):
                 fails.append((name + ": value of a row depends on the batch it is in / on the row order (%s)" % tag, None))
+    # history: observable objects that have served states with other numbers of sites give the same values afterwards
+    fresh = {name: o.apply(st, keep.clone()) for name, o, O in obs}
+    for order in ("shorter chains first", "longer chains first"):
+        used = [("X", SigmaX()), ("Y", SigmaY()), ("Z", SigmaZ())]
+        cs = {}
+        for c in range(1, n + 1):
+            for per in (False, True):
+                used.append(("ZZ c=%d periodic=%s" % (c, per), NeighbourInteraction(periodic_bcs=per, c=c)))
+                cs[used[-1][0]] = c
+        for m in ([m for m in (1, n - 1) if 1 <= m < n] if order.startswith("shorter") else [n + 2, n + 1]):
+            so = C.make_state(kind, m, 2, 1)
+            sp = so.generate_hilbert_space(m)
+            for name, o in used:
+                if cs.get(name, 0) <= m:
+                    o.apply(so, sp)
+        for name, o in used:
+            got = o.apply(st, keep.clone())
+            if tuple(got.shape) != tuple(fresh[name].shape) or not torch.allclose(got, fresh[name], rtol=1e-12, atol=1e-14):
+                fails.append((name + ": an observable object used on states with other numbers of sites before (%s) gives other values than a fresh one" % order, None))
     for L, cls in (("X", SigmaX), ("Y", SigmaY), ("Z", SigmaZ)):
         a, s = cls(absolute=True).apply(st, space), cls().apply(st, space)
         if not torch.allclose(a, s.abs()):
